@@ -357,11 +357,21 @@ def z3(spec):
         mesh = mesh[:, ::-1, :].copy()
         mesh[:, :, 1] *= -1.0
     s = _aero_surface("wing", mesh, True, twist_cp, viscous=True, groundplane=True, sweep=0.0)
+    surfaces = [s]
+    extra_user = []
+    if spec.get("tail"):
+        md2, mesh2, _ = _gen_mesh("rect", 2, 5, True, span=20.0, root_chord=3.0, offset=np.array([50.0, 0.0, 2.0]))
+        if spec.get("right"):
+            mesh2 = mesh2[:, ::-1, :].copy()
+            mesh2[:, :, 1] *= -1.0
+        tail = _aero_surface("tail", mesh2, True, np.array([0.0, 0.0]), viscous=False, CD0=0.0, groundplane=True, sweep=0.0)
+        surfaces.append(tail)
+        extra_user = [tail, md2]
     flight = dict(FLIGHT_CRUISE)
     flight["height_agl"] = (20.0, "m")
     flight["Mach_number"] = (0.3, None)
     flight["v"] = (80.0, "m/s")
-    prob, pn = _aero_problem(spec, [s], flight)
+    prob, pn = _aero_problem(spec, surfaces, flight)
     inputs = [
         Inp("v", 80.0, "rel", -0.15, 0.15),
         Inp("alpha", 5.0, "uni", 2.0, 8.0),
@@ -373,8 +383,11 @@ def z3(spec):
         Inp("wing.twist_cp", twist_cp, "abs", -2.0, 2.0),
         Inp("wing.sweep", 0.0, "uni", -5.0, 10.0, special=[0.0]),
     ]
+    if spec.get("tail"):
+        inputs += [Inp("tail.twist_cp", np.array([0.0, 0.0]), "abs", -3.0, 3.0, special=[0.0]),
+                   Inp("tail.sweep", 0.0, "uni", -5.0, 10.0, special=[0.0])]
     of = [pn + ".CL", pn + ".CD", pn + ".CM", pn + ".total_perf.moment.M"]
-    return Model(spec, prob, inputs, of, [i.name for i in inputs], [s, md])
+    return Model(spec, prob, inputs, of, [i.name for i in inputs], [s, md] + extra_user)
 
 
 @entry("Z4")
@@ -402,6 +415,8 @@ def z5(spec):
 
     ny = spec.get("ny", 5)
     sym = bool(spec.get("sym", True))
+    if spec.get("user_meshes"):
+        return _z5_user_meshes(spec)
     sec_chord_cp = [np.array([1.0, 1.0]), np.array([1.0, 1.0])]
     surface = {
         "name": "surface",
@@ -467,6 +482,57 @@ def z5(spec):
     return Model(spec, prob, inputs, of, [i.name for i in inputs], [surface] + list(section_surfaces))
 
 
+def _z5_user_meshes(spec):
+    """Three-section symmetric surface whose section meshes are supplied by the user (the tip section in
+    its own local frame, which is what unify_mesh's shift exists for)."""
+    import openmdao.api as om
+    from openaerostruct.geometry.geometry_group import MultiSecGeometry, build_sections
+    from openaerostruct.geometry.geometry_unification import unify_mesh
+    from openaerostruct.aerodynamics.aero_groups import AeroPoint
+
+    ny = spec.get("ny", 5)
+
+    def rect(y_out, y_in, x_le, chord=1.0):
+        mesh = np.zeros((2, ny, 3))
+        mesh[:, :, 1] = np.linspace(y_out, y_in, ny)
+        mesh[0, :, 0] = x_le
+        mesh[1, :, 0] = x_le + chord
+        return mesh
+
+    m0, m1, m2 = rect(-1.0, 0.0, 0.3), rect(-2.0, -1.0, 0.0), rect(-1.0, 0.0, 0.0)
+    surface = {
+        "name": "surface", "is_multi_section": True, "num_sections": 3, "sec_name": ["sec0", "sec1", "sec2"],
+        "symmetry": True, "S_ref_type": "wetted", "root_section": 2,
+        "chord_cp": [np.ones(2), np.ones(2), np.ones(2)], "twist_cp": [np.zeros(2), np.zeros(2), np.zeros(2)],
+        "meshes": [m0, m1, m2], "CL0": 0.0, "CD0": 0.015, "k_lam": 0.05, "c_max_t": 0.303,
+        "with_viscous": False, "with_wave": False, "groundplane": False,
+    }
+    prob = om.Problem(reports=False)
+    flight = {"v": (1.0, "m/s"), "alpha": (10.0, "deg"), "Mach_number": (0.3, None), "re": (1.0e5, "1/m"),
+              "rho": (0.38, "kg/m**3"), "cg": (np.zeros(3), "m")}
+    prob.model.add_subsystem("prob_vars", _flight_ivc(om, flight), promotes=["*"])
+    prob.model.add_subsystem("surface", MultiSecGeometry(surface=surface, joining_comp=True, dim_constr=[np.ones(3), np.ones(3)]))
+    section_surfaces = build_sections(surface)
+    surface["mesh"] = unify_mesh(section_surfaces)
+    pn = "aero_point_0"
+    prob.model.add_subsystem(pn, AeroPoint(surfaces=[surface]), promotes_inputs=["v", "alpha", "Mach_number", "re", "rho", "cg"])
+    uni = "surface.surface_unification.surface_uni_mesh"
+    prob.model.connect(uni, pn + ".surface.def_mesh")
+    prob.model.connect(uni, pn + ".aero_states.surface_def_mesh")
+    _setup(prob, spec)
+    inputs = [
+        Inp("v", 1.0, "rel", -0.15, 0.15),
+        Inp("alpha", 10.0, "uni", 2.0, 10.0),
+        Inp("rho", 0.38, "rel", -0.2, 0.2),
+        Inp("cg", np.zeros(3), "abs", -0.5, 0.5, special=[0.0]),
+    ]
+    for i in range(3):
+        inputs.append(Inp("surface.sec%d.chord_cp" % i, np.ones(2), "uni", 0.7, 1.3, special=[1.0]))
+        inputs.append(Inp("surface.sec%d.twist_cp" % i, np.zeros(2), "uni", -3.0, 3.0, special=[0.0]))
+    of = [pn + ".CL", pn + ".CD", pn + ".CM", pn + ".total_perf.moment.M", "surface.surface_joining.section_separation"]
+    return Model(spec, prob, inputs, of, [i.name for i in inputs], [surface, {"m0": m0, "m1": m1, "m2": m2}] + list(section_surfaces))
+
+
 # ------------------------------------------------------------------------------------------------
 # structures-only models
 # ------------------------------------------------------------------------------------------------
@@ -509,7 +575,9 @@ def z6(spec):
     inputs = [
         Inp("loads", _loads(nyh), "rel", -0.5, 0.5),
     ] + ([Inp("load_factor", 1.0, "uni", 0.5, 2.5, special=[1.0])] if s["struct_weight_relief"] else []) + [
-        Inp("wing.thickness_cp", np.array([0.05, 0.1, 0.15]), "rel", -0.3, 0.5),
+        # the very thin values are admissible (an optimiser's infeasible iterates): stresses far beyond the
+        # allowable, where the KS aggregate has to stay finite
+        Inp("wing.thickness_cp", np.array([0.05, 0.1, 0.15]), "rel", -0.3, 0.5, special=[0.004, 0.002, 0.5]),
         Inp("wing.geometry.t_over_c_cp", np.array([0.15]), "rel", -0.2, 0.2),
     ]
     of = ["wing.failure", "wing.structural_mass", "wing.vonmises", "wing.disp", "wing.thickness_intersects"]
@@ -542,8 +610,8 @@ def z7(spec):
     inputs = [
         Inp("loads", _loads(nyh, 5e4), "rel", -0.5, 0.5),
         Inp("load_factor", 1.0, "uni", 0.5, 2.5, special=[1.0]),
-        Inp("point_masses", np.array([[8000.0]]), "rel", -0.5, 0.5),
-        Inp("engine_thrusts", np.array([[80.0e3]]), "rel", -0.5, 0.5),
+        Inp("point_masses", np.array([[8000.0]]), "rel", -0.5, 0.5, special=[0.0]),
+        Inp("engine_thrusts", np.array([[80.0e3]]), "rel", -0.5, 0.5, special=[0.0]),
         Inp("point_mass_locations", np.array([[25.0, -10.0, -1.0]]), "abs", -1.0, 1.0),
         Inp("wing.spar_thickness_cp", np.linspace(0.004, 0.01, 3), "rel", -0.2, 0.5),
         Inp("wing.skin_thickness_cp", np.linspace(0.005, 0.026, 3), "rel", -0.2, 0.5),
@@ -899,6 +967,81 @@ def z12(spec):
     return m
 
 
+@entry("Z15")
+def z15(spec):
+    """Morphing multipoint (documented in the advanced features): every flight point owns its geometry
+    (AerostructGeometry(connect_geom_DVs=False) inside the point), so the points have different twist and
+    spar thickness - different stiffness behind the same surface name."""
+    import openmdao.api as om
+    from openaerostruct.integration.aerostruct_groups import AerostructGeometry, AerostructPoint
+
+    nx, ny = spec.get("nx", 2), spec.get("ny", 5)
+    md, mesh, twist_cp = _gen_mesh("CRM", nx, ny, True, num_twist_cp=3)
+    s = _aero_surface("wing", mesh, True, twist_cp, viscous=True, thickness_cp=np.array([0.1, 0.2, 0.3]))
+    s.update(_tube_props())
+    flight = _as_flight()
+    npts = 2
+    per_point = ["v", "alpha", "Mach_number", "re", "rho", "load_factor"]
+    mult = {"v": [1.0, 0.7], "alpha": [1.0, 1.6], "Mach_number": [1.0, 0.6], "re": [1.0, 0.5], "rho": [1.0, 2.0], "load_factor": [1.0, 2.0]}
+    first = int(spec.get("first", 0))
+    n_here = int(spec.get("npts", 2))
+    for k in per_point:
+        flight[k] = (np.array([flight[k][0] * mult[k][first + i] for i in range(n_here)]), flight[k][1])
+    tw = [np.array(twist_cp, dtype=float), np.array(twist_cp, dtype=float) + np.array([1.0, 0.5, -1.0])]
+    th = [np.array([0.1, 0.2, 0.3]), np.array([0.08, 0.25, 0.35])]
+    prob = om.Problem(reports=False)
+    prob.model.add_subsystem("prob_vars", _flight_ivc(om, flight), promotes=["*"])
+    mv = om.IndepVarComp()
+    mv.add_output("t_over_c_cp", val=np.array([0.15]))
+    for i in range(n_here):
+        mv.add_output("twist_cp_%d" % i, val=tw[first + i], units="deg")
+        mv.add_output("thickness_cp_%d" % i, val=th[first + i], units="m")
+    prob.model.add_subsystem("morphing_vars", mv, promotes=["*"])
+    coupled = []
+    for i in range(n_here):
+        pn = "AS_point_%d" % i
+        pt = AerostructPoint(surfaces=[s])
+        prob.model.add_subsystem(pn, pt)
+        pt.add_subsystem("wing", AerostructGeometry(surface=s, connect_geom_DVs=False))
+        coupled.append(pn + ".coupled")
+        prob.model.connect("t_over_c_cp", pn + ".wing.geometry.t_over_c_cp")
+        prob.model.connect("thickness_cp_%d" % i, pn + ".wing.tube_group.thickness_cp")
+        prob.model.connect("twist_cp_%d" % i, pn + ".wing.geometry.twist_cp")
+        for v in ("alpha", "v", "Mach_number", "re", "rho", "load_factor"):
+            prob.model.connect(v, pn + "." + v, src_indices=[i])
+        for v in ("CT", "R", "W0", "speed_of_sound", "empty_cg"):
+            prob.model.connect(v, pn + "." + v)
+        pt.connect("wing.local_stiff_transformed", "coupled.wing.local_stiff_transformed")
+        pt.connect("wing.nodes", "coupled.wing.nodes")
+        pt.connect("wing.mesh", "coupled.wing.mesh")
+        pt.connect("wing.radius", "wing_perf.radius")
+        pt.connect("wing.thickness", "wing_perf.thickness")
+        pt.connect("wing.nodes", "wing_perf.nodes")
+        pt.connect("wing.cg_location", "total_perf.wing_cg_location")
+        pt.connect("wing.structural_mass", "total_perf.wing_structural_mass")
+        pt.connect("wing.geometry.t_over_c", "wing_perf.t_over_c")
+        pt.connect("wing.geometry.t_over_c", "wing.t_over_c")
+    _setup(prob, spec)
+    inputs = [
+        Inp("v", flight["v"][0], "rel", -0.1, 0.1),
+        Inp("alpha", flight["alpha"][0], "abs", -1.0, 2.0),
+        Inp("rho", flight["rho"][0], "rel", -0.2, 0.2),
+        Inp("load_factor", flight["load_factor"][0], "rel", -0.2, 0.2),
+        Inp("W0", flight["W0"][0], "rel", -0.2, 0.2),
+    ]
+    for i in range(n_here):
+        inputs.append(Inp("twist_cp_%d" % i, tw[first + i], "abs", -1.5, 1.5))
+        inputs.append(Inp("thickness_cp_%d" % i, th[first + i], "rel", -0.2, 0.4))
+    of = []
+    for i in range(n_here):
+        pn = "AS_point_%d" % i
+        of += [pn + ".fuelburn", pn + ".CL", pn + ".wing_perf.failure", pn + ".CM"]
+    m = Model(spec, prob, inputs, of, [i.name for i in inputs], [s, md], coupled=coupled)
+    m.notes["per_point"] = per_point
+    m.notes["npts"] = n_here
+    return m
+
+
 # ------------------------------------------------------------------------------------------------
 # MPhys wrappers, atmosphere
 # ------------------------------------------------------------------------------------------------
@@ -1122,9 +1265,11 @@ def variants():
         {"zoo": "Z2"},
         {"zoo": "Z3"},
         {"zoo": "Z3", "right": True},
+        {"zoo": "Z3", "tail": True},
         {"zoo": "Z4"},
         {"zoo": "Z5"},
         {"zoo": "Z5", "sym": False},
+        {"zoo": "Z5", "user_meshes": True},
         {"zoo": "Z6"},
         {"zoo": "Z6", "exact": True},
         {"zoo": "Z6", "relief": True},
@@ -1142,6 +1287,7 @@ def variants():
         {"zoo": "Z13"},
         {"zoo": "Z13", "compressible": True},
         {"zoo": "Z14"},
+        {"zoo": "Z15"},
     ]
 
 
